@@ -543,5 +543,10 @@ def pol_frontier(ctx):
     return act.astype(np.int32)
 
 
+def key_score(P, S0):
+    """Workload hint: instances whose largest food level is extreme reach the top of the declared observation range."""
+    return float(np.max(np.asarray(S0["food_items.level"])))
+
+
 def policies(P):
     return {"complete": pol_complete, "collide": pol_collide, "frontier": pol_frontier}
